@@ -258,6 +258,15 @@ def TLS.run (t : TLS) : List TAct → TLS
   | [] => t
   | a :: r => TLS.run (t.step a) r
 
+/-! ### `SYSTEM_COUNT`: what `System::id()` is
+
+`System::construct` takes the id with one atomic `SYSTEM_COUNT.fetch_add(1, SeqCst)` (T1 fact
+`rtConstructSetsCurrent`); however many threads construct Systems at the same time, the `fetch_add`s are
+linearised, so the ids handed out from a counter standing at `c` are: -/
+def fetchAdds (c : Nat) : Nat → List Nat
+  | 0 => []
+  | n + 1 => c :: fetchAdds (c + 1) n
+
 /-! ### T1: the source lines the transition rules above are written from
 
 Regenerated from /repo on every check by tools/spans/rt.py (shape facts, not kernels).  Each fact
@@ -289,6 +298,7 @@ def sourceShapeC10 : Bool :=
   Src.rtSetCurrentOverwrites && Src.rtArbThreadSetsHandle && Src.rtCurrentReadsHandle &&
   Src.rtSysArbRegisteredFirst &&
   Src.rtHandleSpawnOnlySends && Src.rtHandleSpawnFnOnlySpawn && Src.rtHandleStopOnlySends &&
-  Src.rtArbiterSpawnOnlySends && Src.rtArbiterSpawnFnOnlySpawn && Src.rtArbiterStopOnlySends
+  Src.rtArbiterSpawnOnlySends && Src.rtArbiterSpawnFnOnlySpawn && Src.rtArbiterStopOnlySends &&
+  Src.rtJoinOnlyJoins
 
 end ActixNet.Rt
